@@ -9,9 +9,6 @@ import (
 	"sort"
 	"strings"
 
-	"github.com/songzhibin97/go-baseutils/structure/maps/skipmap"
-	"github.com/songzhibin97/go-baseutils/structure/sets/skipset"
-	"github.com/songzhibin97/go-baseutils/structure/sets/zset"
 	"github.com/songzhibin97/go-baseutils/structure/trees/avltree"
 	"github.com/songzhibin97/go-baseutils/structure/trees/btree"
 	"github.com/songzhibin97/go-baseutils/structure/trees/redblacktree"
@@ -241,219 +238,3 @@ func binOps(w *vhlib.Writer, rng *vhlib.Rng, o vhlib.Opts) {
 	}
 }
 
-// ---------- E. skip lists, exact search cost ----------
-type skipAdapter struct {
-	kind   string // SKZ | SKM | SKS
-	label  string
-	lookup func(k int)
-	insert func(k int)
-	remove func(k int)
-	shape  func() (keys, heights, lanes []int, highest int)
-	opname [3]string
-}
-
-func zsetAdapter() skipAdapter {
-	z := zset.New[int](counting())
-	return skipAdapter{
-		kind: "SKZ", label: "zset", opname: [3]string{"zset.Rank", "zset.AddB", "zset.RemoveB"},
-		lookup: func(k int) { z.Rank(k) },
-		insert: func(k int) { z.AddB(0, k) }, // all scores equal: the member comparator decides every step
-		remove: func(k int) { z.RemoveB(k) },
-		shape: func() (keys, heights, lanes []int, highest int) {
-			d := z.VerifDump()
-			keys, heights, lanes = make([]int, len(d.Nodes)), make([]int, len(d.Nodes)), make([]int, len(d.Nodes))
-			for i, nd := range d.Nodes {
-				keys[i], heights[i] = nd.Value, nd.Level
-			}
-			// lanes: walk every level's chain from the header
-			for lv := 0; lv < len(d.HeaderNext); lv++ {
-				steps, x := 0, d.HeaderNext[lv]
-				for x >= 0 && steps <= len(d.Nodes) {
-					steps++
-					lanes[x]++
-					if lv < len(d.Nodes[x].Next) {
-						x = d.Nodes[x].Next[lv]
-					} else {
-						x = -1
-					}
-				}
-			}
-			return keys, heights, lanes, d.Highest
-		},
-	}
-}
-
-func fixLanes(lanes []int) []int {
-	out := make([]int, len(lanes))
-	for i, l := range lanes {
-		if l > 0 {
-			out[i] = l
-		}
-	}
-	return out
-}
-
-func skipmapAdapter() skipAdapter {
-	m := skipmap.New[int, int](counting())
-	return skipAdapter{
-		kind: "SKM", label: "skipmap", opname: [3]string{"skipmap.Load", "skipmap.Store", "skipmap.Delete"},
-		lookup: func(k int) { m.Load(k) },
-		insert: func(k int) { m.Store(k, k) },
-		remove: func(k int) { m.Delete(k) },
-		shape: func() (keys, heights, lanes []int, highest int) {
-			lanes, heights, highest, _ = m.VerifShape()
-			m.Range(func(k, _ int) bool { keys = append(keys, k); return true })
-			return keys, heights, fixLanes(lanes), highest
-		},
-	}
-}
-
-func skipsetAdapter() skipAdapter {
-	s := skipset.New[int](counting())
-	return skipAdapter{
-		kind: "SKS", label: "skipset", opname: [3]string{"skipset.Contains", "skipset.AddB", "skipset.RemoveB"},
-		lookup: func(k int) { s.Contains(k) },
-		insert: func(k int) { s.AddB(k) },
-		remove: func(k int) { s.RemoveB(k) },
-		shape: func() (keys, heights, lanes []int, highest int) {
-			lanes, heights, highest, _ = s.VerifShape()
-			s.Range(func(k int) bool { keys = append(keys, k); return true })
-			return keys, heights, fixLanes(lanes), highest
-		},
-	}
-}
-
-func knodes(keys, heights []int) string {
-	it := make([]string, 0, len(keys))
-	for i := range keys {
-		h := 0
-		if i < len(heights) {
-			h = heights[i]
-		}
-		it = append(it, fmt.Sprintf("(%s, %d%%nat)", vhlib.Z(int64(keys[i])), h))
-	}
-	return bigList(it)
-}
-
-func skipOps(w *vhlib.Writer, rng *vhlib.Rng, o vhlib.Opts) {
-	sizes := []int{0, 1, 2, 5, 16, 64, 256, 1024}
-	if o.Thorough() {
-		sizes = append(sizes, 2048, 4096)
-	}
-	for _, mk := range []func() skipAdapter{zsetAdapter, skipmapAdapter, skipsetAdapter} {
-		for _, n := range sizes {
-			for _, prof := range profiles {
-				if n < 5 && prof != "random" && prof != "asc" {
-					continue
-				}
-				a := mk()
-				keys := make([]int, n)
-				for i := range keys {
-					keys[i] = 2 * (i + 1)
-				}
-				order := append([]int(nil), keys...)
-				switch prof {
-				case "asc":
-				case "desc":
-					for i, j := 0, n-1; i < j; i, j = i+1, j-1 {
-						order[i], order[j] = order[j], order[i]
-					}
-				case "zigzag":
-					z := make([]int, 0, n)
-					for i, j := 0, n-1; i <= j; i, j = i+1, j-1 {
-						z = append(z, keys[i])
-						if i != j {
-							z = append(z, keys[j])
-						}
-					}
-					order = z
-				default:
-					for i, j := range rng.Perm(n) {
-						order[i] = keys[j]
-					}
-				}
-				for _, k := range order {
-					a.insert(k)
-				}
-				if prof == "churn" {
-					for round := 0; round < 3; round++ {
-						p := rng.Perm(n)
-						for _, j := range p[:n*2/3] {
-							a.remove(keys[j])
-						}
-						for _, j := range p[:n*2/3] {
-							a.insert(keys[j])
-						}
-					}
-				}
-				ks, hs, lanes, hi := a.shape()
-				present := map[int]bool{}
-				for _, k := range ks {
-					present[k] = true
-				}
-				nops := 96
-				if n < 16 {
-					nops = 32
-				}
-				var ops, steps []string
-				for i := 0; i < nops; i++ {
-					var key, c, h int
-					var term string
-					// keys: present ones, absent odd ones inside the range, and keys below / above every element
-					pick := func() int {
-						switch rng.Intn(8) {
-						case 0:
-							return -rng.Intn(5)
-						case 1:
-							return 2*n + 1 + rng.Intn(7)
-						default:
-							return rng.Intn(2*n + 3)
-						}
-					}
-					switch rng.Intn(6) {
-					case 0, 1:
-						key = pick()
-						if a.kind == "SKZ" && n > 0 && rng.Intn(4) != 0 { // Rank searches only for members
-							key = keys[rng.Intn(n)]
-						}
-						c = count(func() { a.lookup(key) })
-						term = fmt.Sprintf("SLookup %s", vhlib.Z(int64(key)))
-						steps = append(steps, a.opname[0])
-					case 2, 3:
-						key = pick()
-						was := present[key]
-						c = count(func() { a.insert(key) })
-						present[key] = true
-						if !was {
-							k2, h2, _, _ := a.shape()
-							for j, kk := range k2 {
-								if kk == key && j < len(h2) {
-									h = h2[j]
-								}
-							}
-						}
-						term = fmt.Sprintf("SInsert %s %d%%nat", vhlib.Z(int64(key)), h)
-						steps = append(steps, a.opname[1])
-					default:
-						key = pick()
-						if n > 0 && rng.Intn(3) != 0 {
-							key = keys[rng.Intn(n)]
-						}
-						c = count(func() { a.remove(key) })
-						delete(present, key)
-						term = fmt.Sprintf("SDelete %s", vhlib.Z(int64(key)))
-						steps = append(steps, a.opname[2])
-					}
-					_, _, _, ha := a.shape()
-					ops = append(ops, fmt.Sprintf("(%s, %d%%nat, %d%%nat)", term, c, ha))
-				}
-				fk, fh, _, fhi := a.shape()
-				ops = append(ops, fmt.Sprintf("(SFinal %s, 0%%nat, %d%%nat)", knodes(fk, fh), fhi))
-				steps = append(steps, a.label+".finalshape")
-				term := fmt.Sprintf("CSkipOps %s %d%%nat %s %s %s %s", a.kind, hi, bigIntList(ks), bigNatList(hs), bigNatList(lanes), vhlib.List(ops))
-				w.Case(term, a.label+" ops", n >= 2, append([]string{a.label + ".lanes"}, steps...),
-					map[string]interface{}{"kind": a.label, "n": n, "profile": prof, "highest": hi, "ops": ops[:len(ops)-1]})
-			}
-		}
-	}
-}
